@@ -7,6 +7,7 @@ mod run;
 mod scenario;
 mod seqwalk;
 mod sim;
+mod statedrv;
 mod wire;
 
 use scenario::Scenario;
@@ -36,12 +37,19 @@ fn cmd_sim(args: &[String]) -> i32 {
             "timing" => gen::gen_timing(seed, n),
             "sched" => gen::gen_sched(seed, n),
             "storm" => gen::gen_storm(seed, n),
+            "nat" => gen::gen_nat(seed, n),
             f => {
                 eprintln!("unknown family {f}");
                 return 2;
             }
         }
     };
+    let mut scenarios = scenarios;
+    if let Some(mode) = arg(args, "--snap") {
+        for sc in &mut scenarios {
+            sc.snap = mode.to_string();
+        }
+    }
     if let Some(path) = arg(args, "--dump-scenarios") {
         let mut f = std::fs::File::create(path).expect("create");
         for sc in &scenarios {
@@ -103,11 +111,31 @@ fn cmd_seqwalk(args: &[String]) -> i32 {
     0
 }
 
+fn cmd_state(args: &[String]) -> i32 {
+    let seed: u64 = arg(args, "--seed").and_then(|s| s.parse().ok()).unwrap_or(1);
+    let n: usize = arg(args, "--n").and_then(|s| s.parse().ok()).unwrap_or(10);
+    let out = arg(args, "--out").unwrap_or("/dev/stdout");
+    let family = arg(args, "--family").unwrap_or("state");
+    std::panic::set_hook(Box::new(|_| {}));
+    let plans = statedrv::plans(seed, n, family);
+    let mut f = std::io::BufWriter::new(std::fs::File::create(out).expect("create out"));
+    let stats = statedrv::run(&plans, seed, &mut f);
+    f.flush().unwrap();
+    if let Some(path) = arg(args, "--stats") {
+        std::fs::write(path, serde_json::to_string(&stats).unwrap()).unwrap();
+    }
+    if let Some(path) = arg(args, "--dump-scenarios") {
+        std::fs::write(path, "").unwrap();
+    }
+    0
+}
+
 fn main() {
     let args: Vec<String> = std::env::args().collect();
     let code = match args.get(1).map(String::as_str) {
         Some("sim") => cmd_sim(&args[2..]),
         Some("seqwalk") => cmd_seqwalk(&args[2..]),
+        Some("state") => cmd_state(&args[2..]),
         _ => {
             eprintln!("usage: vh sim --family F --seed S --n N --out FILE [--stats FILE]");
             2
